@@ -301,7 +301,7 @@ def generated_model(ctx, reqs, impl_outs, metas):
         if errors:
             ctx.disagreement("generated-listdict:translation", dict(entry="_ListDict_", errors=errors))
             return
-        p = subprocess.run(["lake", "build", "drivergen"], cwd=lean, capture_output=True, text=True)
+        p = common.lake(["build", "drivergen"])
     if p.returncode != 0:
         ctx.disagreement("generated-listdict:build", dict(entry="_ListDict_", log="\n".join(
             l for l in (p.stdout + p.stderr).splitlines() if "error" in l)[:1500]))
